@@ -37,7 +37,7 @@ static int scan_fd(int fd, size_t *total, char *how) {
 	/* normalised hex stream: only hex digits, lower case */ char *hx = (char *)malloc(sz + 1); size_t hl = 0; for (off_t i = 0; i < sz; i++) { uint8_t c = t[i]; if (c >= '0' && c <= '9') hx[hl++] = (char)c; else if ((c | 0x20) >= 'a' && (c | 0x20) <= 'f') hx[hl++] = (char)(c | 0x20); } hx[hl] = 0;
 	int found = -1; for (int s = 0; s < NSEC && found < 0; s++) for (size_t w = 0; w + 8 <= SEC[s].n && found < 0; w++) { if (memmem(t, sz, SEC[s].b + w, 8)) { found = s; strcpy(how, "raw"); break; } char h[17]; for (int k = 0; k < 8; k++) sprintf(h + 2 * k, "%02x", SEC[s].b[w + k]); if (hl >= 16 && strstr(hx, h)) { found = s; strcpy(how, "hex"); break; } }
 	free(t); free(hx); return found; }
-typedef struct { int leak_fd, leak_sec; char secname[24], how[8]; size_t out1, out2; int c_hs, s_hs; } cout_t; static cout_t *CO;
+typedef struct { int leak_fd, leak_sec; char secname[24], how[8]; size_t out1, out2; int c_hs, s_hs; char where[80]; long mutants; } cout_t; static cout_t *CO;
 static void scan_all(void) { char how[8] = ""; size_t t1, t2; int s = scan_fd(CAP1, &t1, how); CO->out1 = t1; if (s >= 0) { CO->leak_fd = 1; CO->leak_sec = s; snprintf(CO->secname, sizeof CO->secname, "%s", SEC[s].name); strcpy(CO->how, how); } int s2 = scan_fd(CAP2, &t2, how); CO->out2 = t2; if (s2 >= 0 && !CO->leak_fd) { CO->leak_fd = 2; CO->leak_sec = s2; snprintf(CO->secname, sizeof CO->secname, "%s", SEC[s2].name); strcpy(CO->how, how); } }
 
 /* ---- handshake executions ---- */
@@ -84,5 +84,25 @@ static void a_cms(void) { creds_init(); NSEC = 0; uint8_t d[32]; sm2_z256_to_byt
 static void a_sm9(void) { NSEC = 0; SM9_SIGN_MASTER_KEY m; SM9_SIGN_KEY k; SM9_ENC_MASTER_KEY em; SM9_ENC_KEY ek; venv_reset(9); sm9_sign_master_key_generate(&m); uint8_t ks[32]; sm9_z256_to_bytes(m.ks, ks); sec_add("sm9-master-ks", ks, 32); sm9_sign_master_key_extract_key(&m, "alice", 5, &k); uint8_t o[65]; sm9_z256_point_to_uncompressed_octets(&k.ds, o); sec_add("sm9-user-ds", o + 1, 64);
 	SM9_SIGN_CTX c; uint8_t sig[200]; size_t sl = 0; sm9_sign_init(&c); sm9_sign_update(&c, PLAIN, 40); sm9_sign_finish(&c, &k, sig, &sl); sm9_verify_init(&c); sm9_verify_update(&c, PLAIN, 39); sm9_verify_finish(&c, sig, sl, &m, "alice", 5); sm9_enc_master_key_generate(&em); sm9_z256_to_bytes(em.ke, ks); sec_add("sm9-master-ke", ks, 32); sm9_enc_master_key_extract_key(&em, "bob", 3, &ek); sec_add("sm9-plaintext", PLAIN, 40);
 	uint8_t ct[400], out[300]; size_t cl = 0, ol; sm9_encrypt(&em, "bob", 3, PLAIN, 40, ct, &cl); sm9_decrypt(&ek, "bob", 3, ct, cl, out, &ol); ct[cl - 2] ^= 1; sm9_decrypt(&ek, "bob", 3, ct, cl, out, &ol); sm9_decrypt(&ek, "eve", 3, ct, cl, out, &ol); }
+/* ---- key-file import failure paths: the complete one-byte neighbourhood (3 values per offset), every truncation and a spliced public key of each
+   private-key container; after EVERY rejected (or accepted) import the two streams are searched for the private scalar and the password ---- */
+int __real_sm3_pbkdf2(const char *pass, size_t passlen, const uint8_t *salt, size_t saltlen, size_t count, size_t outlen, uint8_t *out);
+int __wrap_sm3_pbkdf2(const char *pass, size_t passlen, const uint8_t *salt, size_t saltlen, size_t count, size_t outlen, uint8_t *out) { return __real_sm3_pbkdf2(pass, passlen, salt, saltlen, count > 64 ? 64 : count, outlen, out); } /* cost cut, consistent for writer and reader (see c06a) */
+static const char IMP_PW[] = "Secr3tPassw0rd!!";
+static void imp_try(int kind, const uint8_t *b, size_t n) { SM2_KEY k; const uint8_t *cp = b, *at; size_t l = n, al; switch (kind) { case 0: sm2_private_key_from_der(&k, &cp, &l); break; case 1: sm2_private_key_info_from_der(&k, &at, &al, &cp, &l); break; case 2: sm2_private_key_info_decrypt_from_der(&k, &at, &al, IMP_PW, &cp, &l); break;
+	default: { FILE *f = fmemopen((void *)b, n ? n : 1, "r"); if (f) { if (kind == 3) sm2_private_key_info_decrypt_from_pem(&k, IMP_PW, f); else sm2_private_key_info_from_pem(&k, f); fclose(f); } } } }
+static int imp_check(const char *where) { cap_end(); scan_all(); CO->mutants++; if (CO->leak_fd) { snprintf(CO->where, sizeof CO->where, "%s", where); return 1; } return 0; }
+static void import_case(const char *name, int kind, int spliced) { if (!vh_next()) return; memset(CO, 0, sizeof *CO); HFAIL[0] = 0; fflush(stdout); pid_t pid = fork();
+	if (pid == 0) { alarm(120); creds_init(); NSEC = 0; uint8_t d[32]; sm2_z256_to_bytes(CK[0].private_key, d); sec_add("private-key", d, 32); sec_add("password", IMP_PW, 16); SM2_KEY src = CK[0]; if (spliced) src.public_key = CK[1].public_key; /* the scalar of one key with the public point of another */
+		static uint8_t b[2000]; size_t n = 0; uint8_t *p = b; venv_reset(99); if (kind == 0) sm2_private_key_to_der(&src, &p, &n); else if (kind == 1) sm2_private_key_info_to_der(&src, &p, &n); else if (kind == 2) sm2_private_key_info_encrypt_to_der(&src, IMP_PW, &p, &n); else { char *t = NULL; size_t tl = 0; FILE *f = open_memstream(&t, &tl); if (kind == 3) sm2_private_key_info_encrypt_to_pem(&src, IMP_PW, f); else sm2_private_key_info_to_pem(&src, f); fclose(f); n = tl < sizeof b ? tl : sizeof b; memcpy(b, t, n); free(t); }
+		char w[80]; cap_begin(); imp_try(kind, b, n); if (imp_check("untouched")) _exit(0); static uint8_t m[2000];
+		for (size_t off = 0; off < n; off++) for (int v = 0; v < 3; v++) { memcpy(m, b, n); uint8_t nv = v == 0 ? 0x00 : v == 1 ? 0xff : (uint8_t)(b[off] ^ 0x01); if (nv == b[off]) continue; m[off] = nv; cap_begin(); imp_try(kind, m, n); snprintf(w, sizeof w, "byte %zu -> %02x", off, nv); if (imp_check(w)) _exit(0); }
+		for (size_t t = 0; t < n; t++) { cap_begin(); imp_try(kind, b, t); snprintf(w, sizeof w, "truncated to %zu", t); if (imp_check(w)) _exit(0); }
+		_exit(0); }
+	int st; while (waitpid(pid, &st, 0) < 0 && errno == EINTR) {} NEXEC++; vh_eval(vh_hash(name, strlen(name), 6 + spliced)); char key[200];
+	if (WIFEXITED(st) && !WEXITSTATUS(st) && CO->leak_fd) { snprintf(key, sizeof key, "C19:import:%s:%s-on-%s", name, CO->secname, CO->leak_fd == 1 ? "stdout" : "stderr"); vh_viol(key, "\"mutant\":\"%s\",\"form\":\"%s\",\"mutants_tried\":%ld", CO->where, CO->how, CO->mutants); }
+	vh_sample("{\"block\":\"import\",\"container\":\"%s\",\"mutants\":%ld}", name, CO->mutants); }
+static void blk_import(void) { if (!vh_block_begin("import")) return; static const char *KN[5] = { "ec-private-key-der", "pkcs8-der", "pkcs8-encrypted-der", "pkcs8-encrypted-pem", "pkcs8-pem" };
+	for (int kind = 0; kind < 5; kind++) for (int sp = 0; sp < 2; sp++) { char nm[64]; snprintf(nm, sizeof nm, "%s%s", KN[kind], sp ? "-with-another-keys-public-point" : ""); import_case(nm, kind, sp); } }
 static void blk_api(void) { if (!vh_block_begin("api")) return; api_case("sm2-keygen-export-import", a_keygen); api_case("sm2-sign-verify-entropy-failure", a_sign); api_case("sm2-decrypt-tampered-wrong-key", a_decrypt); api_case("sm2-ecdh", a_ecdh); api_case("pkcs8-right-and-wrong-password", a_pkcs8); api_case("cms-envelop-open-tampered", a_cms); api_case("sm9-sign-encrypt-failures", a_sm9); }
-int main(int argc, char **argv) { vh_init(argc, argv); app_fill(); for (int i = 0; i < 40; i++) PLAIN[i] = (uint8_t)(0xC3 ^ (i * 29)); CO = mmap(NULL, sizeof *CO, PROT_READ | PROT_WRITE, MAP_SHARED | MAP_ANONYMOUS, -1, 0); blk_handshakes(); blk_api(); printf("STAT executions=%llu\n", (unsigned long long)NEXEC); return vh_finish(); }
+int main(int argc, char **argv) { vh_init(argc, argv); app_fill(); for (int i = 0; i < 40; i++) PLAIN[i] = (uint8_t)(0xC3 ^ (i * 29)); CO = mmap(NULL, sizeof *CO, PROT_READ | PROT_WRITE, MAP_SHARED | MAP_ANONYMOUS, -1, 0); blk_handshakes(); blk_api(); blk_import(); printf("STAT executions=%llu\n", (unsigned long long)NEXEC); return vh_finish(); }
